@@ -81,6 +81,27 @@ def campaign(c):
         if f['collect_type'] != 'Void':
             for u in ALLT:
                 check(c, f, base + [(None, REPS[u])], 'matrix'); check(c, f, base + [(None, REPS[u]), (None, REPS[u])], 'matrix')
+    # hand-over of the collected tail to the function body: every function with a variable tail is CALLED (real code in-process and
+    # model) with tails that contain empty, repeated and typed elements in every position; the two text helpers whose result IS the
+    # tail are also judged directly (collected "in order": nothing dropped, nothing reordered)
+    from ..calls import call_both, val_bytes
+    from .C08 import base_arg, steps_for
+    tails = [[b''], [b'', b'x'], [b'x', b''], [b'', b''], [b'', b'x', b'', b'y'], [b'x', b'', b'y'], [b'a', b'a'], [b'a', b'b', b'a'], [b'', b'', b'z'], [b'\r\n', b''], [b'q']]
+    for f in lib.funcs:
+        if f['collect_type'] == 'Void': continue
+        base = ['%s=%s' % (a['name'], base_arg(f, a)) for a in f['args'] if a['kind'] == 'pos']
+        for t in tails:
+            if f['collect_type'] == 'Str': extra = ['-=str:' + (x.hex() or '-') for x in t]
+            elif f['collect_type'] in ('U8', 'U16', 'U32', 'U64'): extra = ['-=u16:%d' % (len(x) * 257 + 1) for x in t]
+            else: extra = ['-=' + REPS[f['collect_type']] for x in t]
+            steps, idx = steps_for(f, base + extra)
+            res, req = call_both(c, steps, 'tail-handover')
+            r = res[idx] if idx < len(res) else 'missing'
+            if f['path'] in ('text::concat', 'text::crlflines'):
+                want = (b'\r\n' if f['path'].endswith('crlflines') else b'').join(t)
+                if val_bytes(r) != want:
+                    c.violation('bind:tail-handover:' + f['path'], '%s(%s) = %s: the collected arguments are not all handed over in order' % (f['path'], [x.decode() for x in t], r[:80]), dict(func=f['path'], req=req, want=want.hex()))
+            c.case(('tail', f['path'], tuple(t)), None)
     c.extra['exhaustive_space'] = 'all %d signatures x call shapes of length <= %d over (5 name choices x 3 values)' % (len(lib.funcs), L)
     m = 3000 if c.quick else 100000
     for i in range(m):
@@ -97,6 +118,13 @@ def campaign(c):
 
 def replay(c, data):
     d = data.get('replay') or data['disagreements'][0]['request']
+    if 'req' in d:
+        from ..calls import val_bytes
+        hi = c.harness.ask(d['req']); mo = c.model.ask(d['req'])
+        if hi != mo: c.disagree('replay', d, hi[:300], mo[:300])
+        if 'want' in d and val_bytes(hi.split(' | ')[-1]) != bytes.fromhex(d['want']):
+            c.violation('bind:tail-handover:' + d.get('func', '?'), 'replay: %s' % hi[:100], d)
+        return
     lib = Lib()
     f = [x for x in lib.funcs if x['path'] == d['func']][0]
     check(c, f, [tuple(x) for x in d['call']], 'replay')
